@@ -54,7 +54,10 @@ def tok_value(t):
 
 def num_text_value(text):
     if any(c in text for c in ".eE"):
-        return Fraction(float(text))  # the text printed with 17 digits denotes the double it rounds to
+        f = float(text)  # the text printed with 17 digits denotes the double it rounds to
+        if f != f or f in (float("inf"), float("-inf")):
+            return None  # the text overflows a double: cannot denote the (finite) model number
+        return Fraction(f)
     return Fraction(int(text))
 
 
